@@ -5,7 +5,7 @@ import os
 from .model import AnalysisError
 from .report import VERIF
 from .callgraph import closure
-from .rules import r1_resolve, r2_none, r3_ctor, r9_purity, r4_predicates, r5_arghandler, r6_dispatch, r7_binary
+from .rules import r1_resolve, r2_none, r3_ctor, r9_purity, r4_predicates, r5_arghandler, r6_dispatch, r7_binary, r8_accessors, r_list
 
 _anch = None
 
@@ -173,3 +173,71 @@ def c08(run):
 
 
 CHECKS['C08'] = c08
+
+
+def c_dev8(run):
+    from .rules import r8_accessors
+    r8_accessors.run_r8(run)
+    run.explanation = 'dev R8'
+
+
+CHECKS['DEV8'] = c_dev8
+
+
+def c_devl(run):
+    from .rules import r_list
+    r_list.run_list_rules(run)
+    run.explanation = 'dev list'
+
+
+CHECKS['DEVL'] = c_devl
+
+
+def c09(run):
+    prog = run.prog
+    r7_binary.run_r7(run, helpers=True, dunders=False)
+    r8_accessors.run_r8(run)
+    fs = scope(run, 'C09')
+    r2_none.run_r2(run, fs)
+    r1_resolve.run_r1(run, fs)
+    run.floor('R7', 14)
+    run.floor('R8', 60)
+    run.floor('R8h', 20)
+    run.explanation = ('R7: the two broadcasting helpers (SMUserList.binop, SMPose._op2) have, on every return path, the '
+                       'tabulated four-case structure -- (1,1), (1,M), (M,1), (M,M) forms with the right guards '
+                       '(len(left)==1 / len(right)==1 / len(left)==len(right) facts that hold on every path reaching the '
+                       'return), operand order op(left, right), iteration over the right operand, and ValueError when '
+                       'both lengths exceed 1 and differ. R8h: every vectorised operator of the list-capable classes '
+                       'reaches one of the helpers in the call graph. R8: in every per-value accessor a single-or-list '
+                       'value (self.A, self._A, self.S, helper results, the result of ==) is used as an array only under '
+                       'len(self)==1 and iterated only under len(self)!=1; elements of self.data are treated as ndarrays '
+                       'and elements of iter(self) as objects; the single-value and per-element branches call the same '
+                       'kernel with the same options. Element values (numerics) are not decided.')
+    run.trust(*STATIC_TRUST)
+
+
+def c10(run):
+    prog = run.prog
+    r_list.run_list_rules(run)
+    r5_arghandler.check_arghandler(run, prog.func('smuserlist:SMUserList.arghandler'))
+    fs = scope(run, 'C10')
+    r2_none.run_r2(run, fs)
+    r1_resolve.run_r1(run, fs)
+    r9 = None
+    run.floor('RL', 18)
+    run.explanation = ('List equivalence by delegation: (a) __getitem__ hands integer indices to list indexing of self.data and '
+                       'obtains slice elements from list slicing or slice.indices(len(self)), wrapping in the same class; (b) '
+                       'append/insert/__setitem__/extend have a class-EQUALITY guard (isinstance is rejected because concrete '
+                       'classes have concrete subclasses) and a single-value guard whose false edges raise and which hold on '
+                       'every path to the list mutation, so the object is unchanged on error; extend passes the element list; '
+                       '(c) pop and the per-class __getitem__ overrides return the same class; (d) no list primitive '
+                       '(__delitem__, __len__, __iter__, __contains__, reverse, clear, __reversed__) is overridden below '
+                       'UserList; (e) Empty sets data=[] and Alloc builds n separately constructed identities; (f) the '
+                       'list-of-objects constructor path checks the class of every element and tolerates the empty list. '
+                       'With CPython list/UserList trusted, (a)-(f) imply equality with a Python list for every operation '
+                       'history; histories are therefore not enumerated.')
+    run.trust(*STATIC_TRUST, 'CPython list and collections.UserList semantics')
+
+
+CHECKS['C09'] = c09
+CHECKS['C10'] = c10
